@@ -413,4 +413,6 @@ def run(tier):
     from .. import bufcopy
     bufcopy.check(chk)
     chk.floor('interpreters', len(t0.INTERPRETERS), 7)
+    from .. import lints as _lints_ir
+    _lints_ir.ignored_result_regression(chk, ['src/codec/', 'src/x509/', 'src/ssl/'])
     return chk.finish()
